@@ -79,7 +79,7 @@ def required_cells(tier):
         cells.append("inc:" + i)
     cells += ["wd:root", "wd:build-inside", "wd:build-outside", "skip:missing/first", "skip:missing/middle", "skip:missing/last",
               "skip:object", "skip:link", "skip:empty-command", "skip:empty-arguments", "skip:blank-command", "relative-I-missing-in-build-dir", "unnamed-file-unattributed",
-              "gcc-confirmed", "class:grid", "class:random", "same-spelling-different-build-dirs", "same-file-spelling-missing-in-one-directory", "forced-include-by-name:search-path-not-source-directory", "relative-I-also-exists-below-process-cwd:cwd=root",
+              "gcc-confirmed", "class:grid", "class:random", "same-spelling-different-build-dirs", "identical-command-in-two-build-directories", "same-file-spelling-missing-in-one-directory", "forced-include-by-name:search-path-not-source-directory", "relative-I-also-exists-below-process-cwd:cwd=root",
               "relative-I-also-exists-below-process-cwd:cwd=build", "directory-is-file-system-root", "unresolvable-quote-include-with-same-named-file-in-root", "dotdot-after-directory-link:file", "dotdot-after-directory-link:inc",
               "dotdot-after-directory-link:dir", "dotdot-after-directory-link:pre", "dotdot-after-directory-link:all", "forced-include:rel",
               "forced-include:abs", "forced-include:dots", "search-dir-with-blank:command", "search-dir-with-blank:arguments",
@@ -458,6 +458,24 @@ def run_shard(ctx):
                 ms.reverse()
             ctx.acc.cells["same-spelling-different-build-dirs"] += 1
             check_db(ctx, base, root, es, ms, [], "grid")
+            # ... and the SAME file compiled from both build directories by commands that are identical word for word:
+            # two entries, two configurations (each finds its own config.h through `-I.`)
+            es2, ms2 = [], []
+            for sub in ("a", "b"):
+                wd = os.path.join(root, "build", sub)
+                fsp = os.path.relpath(os.path.join(root, "src", "ca.c"), wd)
+                argv = ["gcc", "-I.", "-I", os.path.relpath(os.path.join(root, "inc"), wd), "-I" + os.path.join(root, "inc2"), "-c", fsp]
+                e2 = {"file": fsp, "directory": wd if order else os.path.relpath(wd, root)}
+                if form == "arguments":
+                    e2["arguments"] = argv
+                else:
+                    import shlex
+                    e2["command"] = shlex.join(argv)
+                es2.append(e2)
+                ms2.append({"src": "src/ca.c", "wd": wd, "wd_kind": "build-inside", "dstyle": "abs" if order else "rel", "fstyle": "rel", "istyle": "rel",
+                            "argv": argv, "defines": [], "n_inc": 3})
+            ctx.acc.cells["identical-command-in-two-build-directories"] += 1
+            check_db(ctx, base, root, es2, ms2, [], "grid")
     # `..` after a symbolic link to a directory: the operating system (and so a compiler) climbs from the link's TARGET
     for src, wd_kind, which, form in itertools.product(["src/a.c", "src/d.c"], ["root", "build-inside", "build-deep", "build-outside"],
                                                        ["file", "inc", "dir", "pre", "all"], ["arguments", "command"]):
